@@ -72,6 +72,7 @@ def report_bads(ctx, bads, events, origin):
     for e in events:
         if e["ev"] == "ForestFit":
             by_key[e["key"]] = e
+    per_key = {}
     for (l, runid, ev, clause) in bads:
         e = events[l - 1]
         if clause == "Assemble":
@@ -80,7 +81,13 @@ def report_bads(ctx, bads, events, origin):
         if ev == "ForestRefit" and e["key"] in by_key:
             stored = [by_key[e["key"]], e]
         key = "%s: %s forest, %s" % (clause, kind_of(e, events), origin if ev != "ForestRefit" else "refit")
+        per_key[key] = per_key.get(key, 0) + 1
+        if per_key[key] > 3:        # three replay artefacts per failing class are enough
+            continue
         ctx.report(key, "%s fails on %s" % (clause, describe(e)), stored)
+    for k, c in sorted(per_key.items()):
+        if c > 3:
+            vlib.log("  (%d further events fail [%s]; not listed individually)" % (c - 3, k))
 
 
 def run(ctx):
